@@ -267,7 +267,8 @@ def run_record_persist(chk: Check, tier: str, rng: random.Random):
                                    "tlc_tail": dict(named or []).get(cl, res.out[-4000:])})
             elif not res.ok:
                 raise MachineryFailure(f"TLC run {name} did not complete: {res.out[-2000:]}")
-            elif res.depth != c["MaxDepth"] + 1:
+            elif res.depth != c["MaxDepth"] + 1 and not (c["Mode"] == "final" and res.depth <= c["MaxDepth"] + 1):
+                # (the finaliser model is finite since `create` needs a free name: its exploration may close earlier)
                 raise MachineryFailure(f"TLC run {name} explored depth {res.depth}, expected {c['MaxDepth'] + 1}")
             chk.add_tlc("rp-mc:" + name, res)
             chk.note(f"record-persist mc {name}: {res.distinct} states, {res.generated} transitions, {res.wall:.1f}s, "
